@@ -35,6 +35,17 @@ BAD_T = ["", "RTP/AVP/TCP", "RTP/AVP", "RTP/AVP/TCPX;unicast;interleaved=0-1", "
          "RTP/AVP/UDP;unicast;client_port=50000-50001;interleaved=x", "RTP/AVP/TCP;unicast;interleaved=0-1;port=",
          "RTP/AVP/TCP;unicast;interleaved=0 1"]
 
+# well-formed parameters that may follow a malformed one: the fault must survive them (order independence)
+VALID_TAIL = [";ttl=16", ";destination=1.2.3.4", ";mode=play", ";mode=record", ";source=10.0.0.1", ";ssrc=1234", ";append",
+              ";ttl=16;destination=1.2.3.4;mode=play", ";client_port=50000-50001", ";interleaved=0-1", ";port=5000-5001",
+              ";server_port=6000-6001", ";unicast", ";ttl=127;source=h", ";ttl=1", ";mode=play;ttl=64", ";destination=h;ttl=2"]
+FAULTY = [t for t in BAD_T if ";" in t and t.split(";")[0].strip() in ("RTP/AVP/TCP", "RTP/AVP", "RTP/AVP/UDP")]
+
+
+def bad_with_tail(rng):
+    return rng.choice(FAULTY) + rng.choice(VALID_TAIL) + (rng.choice(VALID_TAIL) if rng.random() < 0.3 else "")
+
+
 CTLS = ["streamid=0", "streamid=1", "streamid=0", "streamid=1", "trk", "streamid=9", "", "x/streamid=0"]
 
 
@@ -86,9 +97,11 @@ class Gen:
         k = r.random()
         if k < 0.55:
             return r.choice([T_TCP_REC, T_TCP_REC, T_TCP_REC2] if want_record else [T_TCP, T_TCP2, T_UDP, T_MC, T_TCP, T_UDP])
-        if k < 0.85:
+        if k < 0.8:
             return r.choice(GOOD_T)
-        return r.choice(BAD_T)
+        if k < 0.9:
+            return r.choice(BAD_T)
+        return bad_with_tail(r)
 
     def good_ctl(self, sdp):
         return self.rng.choice({1: ["streamid=0", "streamid=1"], 2: ["streamid=0"], 3: ["streamid=1"],
@@ -109,8 +122,11 @@ class Gen:
                 # a SETUP that is refused (or changes the transport) after the session is ready
                 t = r.choice([T_UDP_REC, T_MC + ";mode=record", T_TCP, T_MC, "RTP/AVP;unicast;client_port=x;mode=record",
                               "RTP/AVP/UDP;unicast;client_port=50000-50001;mode=record", T_TCP_REC, T_MC2,
-                              "RTP/AVP;unicast;client_port=q"])
+                              "RTP/AVP;unicast;client_port=q", bad_with_tail(r), bad_with_tail(r)])
                 return req(SETUP, cs, flow_path, ctl=self.good_ctl(sdp), transport=t)
+            if r.random() < 0.1:
+                # everything right but the Transport header: a malformed parameter followed by well-formed ones
+                return req(SETUP, cs, flow_path, ctl=self.good_ctl(sdp), transport=bad_with_tail(r))
             if ok():
                 t = r.choice([T_TCP_REC, T_TCP_REC, T_TCP_REC2] if want_record else [T_TCP, T_TCP2, T_UDP, T_MC, T_TCP, T_UDP])
             else:
@@ -172,7 +188,7 @@ def exhaustive(depth, core=False, mcast=False):
         req(SETUP, 1, LIVE_A, ctl="streamid=1", transport=T_MC),
         req(SETUP, 1, REC_X, ctl="streamid=0", transport=T_TCP_REC),
         req(SETUP, 1, REC_X, ctl="streamid=0", transport=T_UDP_REC),
-        req(SETUP, 1, LIVE_A, ctl="streamid=0", transport="RTP/AVP/TCP;unicast;interleaved=x"),
+        req(SETUP, 1, LIVE_A, ctl="streamid=0", transport="RTP/AVP/TCP;unicast;interleaved=x;ttl=16"),
         req(PLAY, 1, LIVE_A),
         req(RECORD, 1, REC_X),
         req(PAUSE, 1, LIVE_A),
@@ -242,12 +258,15 @@ def run(ck):
             "interleaved=-", "interleaved=a", "client_port=5-6", "client_port=", "server_port=7", "server_port=q-1",
             "port=1-2", "port=x", "ttl=3", "destination=1.2.3.4", "source=h", " unicast ", "mode = record",
             "mode=\"record\"", "", "x=y=z", "interleaved=\"3-4\"", "interleaved= 5 - 6", "Mode=record"]
+    for t in FAULTY + GOOD_T:
+        for tail in VALID_TAIL:
+            tcases.append([rng.choice([0, 1, 2]), rng.choice([0, 1, 3]), t + tail, rng.choice([0, 2])])
     for _ in range(4000 if ck.thorough else 600):
         spec = rng.choice(["RTP/AVP/TCP", "RTP/AVP", "RTP/AVP/UDP", " RTP/AVP/TCP ", "RTP/AVP/tcp", "RTP", ""])
         t = spec + "".join(";" + rng.choice(toks) for _ in range(rng.randint(0, 5)))
         tcases.append([rng.choice([0, 1, 2]), rng.choice([0, 1, 2, 3]), t, rng.choice([0, 2])])
-    ck.stream("parse_transport", tcases, "C12_transport", "transport", None,
-              nontrivial=lambda c: ";" in c[2], sig=lambda c, e, o: "parse-transport", sample=2)
+    ck.stream("parse_transport", tcases, "C12_transport", "transport", "C12_transport_ok",
+              nontrivial=lambda c: ";" in c[2], sig=lambda c, e, o: "parse-transport-verdict", sample=2)
 
     # 2. request sequences through real sessions
     n = 15000 if ck.thorough else 500
@@ -357,7 +376,10 @@ class WGen:
         if ok():
             t = r.choice([T_TCP, T_TCP, T_TCP2, "RTP/AVP/TCP;unicast;interleaved=0-1;mode=play"])
         else:
-            t = r.choice([T_UDP, T_MC, T_TCP_REC, T_UDP_REC, "RTP/AVP/TCP;unicast"] + GOOD_T + BAD_T)
+            t = r.choice([T_UDP, T_MC, T_TCP_REC, T_UDP_REC, "RTP/AVP/TCP;unicast"] + GOOD_T + BAD_T +
+                         [bad_with_tail(r) for _ in range(12)])
+        if r.random() < 0.15:
+            return wwrap(self.seq(i), SETUP, g.cseq(i), path, ctl=g.good_ctl(sdp), transport=bad_with_tail(r))
         return wwrap(self.seq(i), SETUP, g.cseq(i), path if ok() else g.path(True),
                      ctl=g.good_ctl(sdp) if ok() else r.choice(CTLS), transport=t)
 
